@@ -197,7 +197,7 @@ contract('Solver.value_iteration_reachability', heap=SOLVER_HEAP,
                                 c_inv, d_inv],
          ensures=VIR_POST + ["result >= 1", f"not (prune_states and RP[{SL_}[0]] == 0)"],
          raises=dict(exc=['ValueError'], when=[], ensures=VIR_POST + ["prune_states", f"RP[{SL_}[0]] == 0"]),
-         modifies={'reach_probability': [f"exists(p, 0, len({S_}), {node('p')} == _o)"], 'expected_reach_min_rewards': 'all'},
+         modifies={'reach_probability': [f"exists(p, 0, len({S_}), {node('p')} == _o)"], 'expected_reach_min_rewards': [f"exists(p, 0, len({SL_}), {SL_}[p] == _o)"]},
          loops={
              0: dict(inv=[c_inv, d_inv, frame_inv, "diff >= 0", "i >= 0", "implies(i == 0, diff == 1)", f"implies(i >= 1, {resid('diff')})",
                           f"forall(r, implies(not exists(p, 0, len({S_}), {node('p')} == r), RP[r] == old(RP[r])))"],
@@ -215,10 +215,13 @@ contract('Solver.value_iteration_reachability', heap=SOLVER_HEAP,
                                f"forall(p, 0, len({S_}), forall(p2, 0, len({S_}), implies(p < p2, {node('p')} != {node('p2')})))"],
                      use={4: [f"L_BR_mono(cls({node('_i1 - 1')}), lcontent({node('_i1 - 1')}.next_states), {SL_}, snap[_i1 - 1], VR)"],
                           5: [mono_all('snap[_i1 - 1]', 'RP')]}),
-             2: dict(inv=[f"forall(t, 0, _i2, ERM[{SL_}[t]] == RP[{SL_}[t]])"])},
+             2: dict(inv=[f"forall(t, 0, _i2, ERM[{SL_}[t]] == RP[{SL_}[t]])",
+                          f"forall(r, implies(not exists(p, 0, len({SL_}), {SL_}[p] == r), ERM[r] == old(ERM[r])))"],
+                     hint_pre=[f"forall(p, 0, len({SL_}), forall(p2, 0, len({SL_}), implies(p != p2, {SL_}[p] != {SL_}[p2])))"])},
          props=['C01', 'C02', 'C04', 'C06', 'C14', 'C13'])
 
 # ------------------------------------------------------------------ conditioning (C03, C10, C02, C05, C06)
+SUM_SELF = 'implies(len(self.next_states) > 0, SumP(lcontent(self.next_states), len(self.next_states)) == 1)'
 OLDNS = "old(lcontent(self.next_states))"
 NS_ALLOC = "0 <= self.next_states and self.next_states < alloc_l()"
 PROBS_POS = "forall(k, 0, len(self.next_states), prob(lcontent(self.next_states)[k]) > 0)"
@@ -227,9 +230,9 @@ FA_ALL = f"FilterAlive({OLDNS}, state_list, RP, len({OLDNS}))"
 
 def pruned_post(c):
     """content of self.next_states after conditioning on reachability, as the statement words it"""
-    p1 = f"eqlist(self.next_states, {FA_ALL})"
+    p1 = f"lcontent(self.next_states) == {FA_ALL}"
     pr = (f"(implies(len({FA_ALL}) == len({OLDNS}), self.next_states == old(self.next_states))"
-          f" and implies(len({FA_ALL}) != len({OLDNS}), eqlist(self.next_states, Renorm({FA_ALL}, AliveMass({OLDNS}, state_list, RP, len({OLDNS})), len({FA_ALL})))))")
+          f" and implies(len({FA_ALL}) != len({OLDNS}), lcontent(self.next_states) == Renorm({FA_ALL}, AliveMass({OLDNS}, state_list, RP, len({OLDNS})), len({FA_ALL}))))")
     return {1: p1, 0: pr, None: f"(implies(cls(self) == 1, {p1}) and implies(cls(self) == 0, {pr}))"}[c]
 
 
@@ -239,9 +242,10 @@ PRUNE_COMMON_POST = ["forall(k, 0, len(self.next_states), RP[state_list[self.nex
 contract('ProbabilisticNode.prune_paths', slot0='prob',
          params={'self': REF('ProbabilisticNode'), 'state_list': SLT},
          locals={'surviving_states': NS, 'surviving_probability': REAL, 'new_next_states': NS, 'new_state_probability': REAL, 'next_state': NODE},
-         requires=[SUCC_IN_RANGE, "cls(self) == 0", PROBS_POS, NS_ALLOC],
+         requires=[SUCC_IN_RANGE, "cls(self) == 0", PROBS_POS, NS_ALLOC, SUM_SELF],
          ensures=[pruned_post(0)] + PRUNE_COMMON_POST + [
              "implies(len(self.next_states) > 0, SumP(lcontent(self.next_states), len(self.next_states)) == 1 or self.next_states == old(self.next_states))",
+             SUM_SELF,
              "forall(k, 0, len(self.next_states), prob(lcontent(self.next_states)[k]) > 0)"],
          modifies={'next_states': ['self'], '__lists__': []}, allocates=True,
          loops={0: dict(inv=[f"surviving_states == FilterAlive({NS_}, state_list, RP, _i)",
@@ -260,7 +264,10 @@ contract('ProbabilisticNode.prune_paths', slot0='prob',
                    4: [f"L_Renorm_sum({FA_ALL}, AliveMass({OLDNS}, state_list, RP, len({OLDNS})), len({FA_ALL}))",
                        f"L_FA_sum({OLDNS}, state_list, RP, len({OLDNS}))", f"L_AliveMass_pos({OLDNS}, state_list, RP, len({OLDNS}))",
                        f"L_SumP_ext(lcontent(self.next_states), Renorm({FA_ALL}, AliveMass({OLDNS}, state_list, RP, len({OLDNS})), len({FA_ALL})), len({FA_ALL}))"],
-                   5: [f"L_FA_from({OLDNS}, state_list, RP, len({OLDNS}))", f"L_AliveMass_pos({OLDNS}, state_list, RP, len({OLDNS}))",
+                   5: [f"L_Renorm_sum({FA_ALL}, AliveMass({OLDNS}, state_list, RP, len({OLDNS})), len({FA_ALL}))",
+                       f"L_FA_sum({OLDNS}, state_list, RP, len({OLDNS}))", f"L_AliveMass_pos({OLDNS}, state_list, RP, len({OLDNS}))",
+                       f"L_SumP_ext(lcontent(self.next_states), Renorm({FA_ALL}, AliveMass({OLDNS}, state_list, RP, len({OLDNS})), len({FA_ALL})), len({FA_ALL}))"],
+                   6: [f"L_FA_from({OLDNS}, state_list, RP, len({OLDNS}))", f"L_AliveMass_pos({OLDNS}, state_list, RP, len({OLDNS}))",
                        f"L_Renorm_at({FA_ALL}, AliveMass({OLDNS}, state_list, RP, len({OLDNS})), len({FA_ALL}))"]},
          props=['C03', 'C02', 'C05', 'C06', 'C10', 'C13', 'C14'])
 contract('PlayerOne.prune_paths', slot0='lab',
@@ -273,14 +280,15 @@ contract('PlayerOne.prune_paths', slot0='lab',
          props=['C03', 'C02', 'C05', 'C06', 'C10', 'C13', 'C14'])
 contract('Node.prune_paths', virtual=True, implementations=['ProbabilisticNode', 'PlayerOne'],
          params={'self': NODE, 'state_list': SLT},
-         requires=[SUCC_IN_RANGE, "cls(self) == 0 or cls(self) == 1", f"implies(cls(self) == 0, {PROBS_POS})", NS_ALLOC],
-         ensures=[pruned_post(None)] + PRUNE_COMMON_POST + ["implies(cls(self) == 0, forall(k, 0, len(self.next_states), prob(lcontent(self.next_states)[k]) > 0))"],
+         requires=[SUCC_IN_RANGE, "cls(self) == 0 or cls(self) == 1", f"implies(cls(self) == 0, {PROBS_POS})", NS_ALLOC, f"implies(cls(self) == 0, {SUM_SELF})"],
+         ensures=[pruned_post(None)] + PRUNE_COMMON_POST + ["implies(cls(self) == 0, forall(k, 0, len(self.next_states), prob(lcontent(self.next_states)[k]) > 0))",
+                                                            f"implies(cls(self) == 0, {SUM_SELF})"],
          modifies={'next_states': ['self'], '__lists__': []}, allocates=True,
          props=['C03', 'C02', 'C05', 'C06', 'C10', 'C13', 'C14'])
 contract('PlayerOne.prune_paths_reachability', slot0='lab',
          params={'self': REF('PlayerOne'), 'best_strategies': OPT(LSTR)},
          requires=["cls(self) == 1", "not isnone(best_strategies)", NS_ALLOC],
-         ensures=[f"eqlist(self.next_states, FilterLab({OLDNS}, some(best_strategies), len({OLDNS})))", NS_ALLOC],
+         ensures=[f"lcontent(self.next_states) == FilterLab({OLDNS}, some(best_strategies), len({OLDNS}))", NS_ALLOC],
          modifies={'next_states': ['self'], '__lists__': []}, allocates=True,
          comps={0: dict(type=NS, **{'is': f"FilterLab({NS_}, some(best_strategies), _n)"})},
          props=['C03', 'C02', 'C05', 'C10', 'C13'])
@@ -298,9 +306,9 @@ def pruned_state(a):
     """content of state a's list after prune_paths, in terms of the entry state"""
     FA = f"FilterAlive({OLDNSOF(a)}, {SL_}, RP, len({OLDNSOF(a)}))"
     AM = f"AliveMass({OLDNSOF(a)}, {SL_}, RP, len({OLDNSOF(a)}))"
-    return (f"(implies(cls({SL_}[{a}]) == 1, eqlist({SL_}[{a}].next_states, {FA}))"
+    return (f"(implies(cls({SL_}[{a}]) == 1, lcontent({SL_}[{a}].next_states) == {FA})"
             f" and implies(cls({SL_}[{a}]) == 0, implies(len({FA}) == len({OLDNSOF(a)}), {SL_}[{a}].next_states == old({SL_}[{a}].next_states))"
-            f" and implies(len({FA}) != len({OLDNSOF(a)}), eqlist({SL_}[{a}].next_states, Renorm({FA}, {AM}, len({FA})))))"
+            f" and implies(len({FA}) != len({OLDNSOF(a)}), lcontent({SL_}[{a}].next_states) == Renorm({FA}, {AM}, len({FA}))))"
             f" and implies(cls({SL_}[{a}]) == 2, {SL_}[{a}].next_states == old({SL_}[{a}].next_states)))")
 
 
@@ -309,17 +317,18 @@ def nodead_state(a):
 
 
 PROBS_POS_S = f"forall(a, 0, len({SL_}), implies(cls({SL_}[a]) == 0, forall(k, 0, len({SL_}[a].next_states), prob(lcontent({SL_}[a].next_states)[k]) > 0)))"
+SUM1_S = f"forall(a, 0, len({SL_}), implies(cls({SL_}[a]) == 0 and len({SL_}[a].next_states) > 0, SumP(lcontent({SL_}[a].next_states), len({SL_}[a].next_states)) == 1))"
 OLD_LISTS_SAME = "forall(r, implies(0 <= r and r < old(alloc_l()), lcontent(r) == old(lcontent(r))))"
 contract('Solver.prune_paths', heap=SOLVER_HEAP,
          params={'self': REF('Solver')}, locals={'state': NODE},
-         requires=VALID(SL_) + HEAPWF(SL_) + [PROBS_POS_S],
+         requires=VALID(SL_) + HEAPWF(SL_) + [PROBS_POS_S, SUM1_S],
          ensures=[f"forall(a, 0, len({SL_}), {pruned_state('a')})",
-                  f"forall(a, 0, len({SL_}), {nodead_state('a')})"] + VALID(SL_) + HEAPWF(SL_) + [PROBS_POS_S],
+                  f"forall(a, 0, len({SL_}), {nodead_state('a')})"] + VALID(SL_) + HEAPWF(SL_) + [PROBS_POS_S, SUM1_S],
          modifies={'next_states': [f"exists(p, 0, len({SL_}), {SL_}[p] == _o)"], '__lists__': []}, allocates=True,
          loops={0: dict(inv=[f"forall(a, 0, _i, {pruned_state('a')})", f"forall(a, 0, _i, {nodead_state('a')})",
                              f"forall(a, _i, len({SL_}), {SL_}[a].next_states == old({SL_}[a].next_states))",
                              OLD_LISTS_SAME, "alloc_l() >= old(alloc_l())",
-                             f"forall(r, implies(not exists(p, 0, len({SL_}), {SL_}[p] == r), NSF[r] == old(NSF[r])))"] + VALID(SL_) + HEAPWF(SL_) + [PROBS_POS_S],
+                             f"forall(r, implies(not exists(p, 0, len({SL_}), {SL_}[p] == r), NSF[r] == old(NSF[r])))"] + VALID(SL_) + HEAPWF(SL_) + [PROBS_POS_S, SUM1_S],
                         hint_pre=[f"forall(p, 0, len({SL_}), forall(p2, 0, len({SL_}), implies(p != p2, {SL_}[p] != {SL_}[p2])))"])},
          props=['C03', 'C02', 'C05', 'C06', 'C10', 'C13', 'C14'])
 
@@ -327,7 +336,7 @@ RS_ = "reachability_strategies"
 
 
 def reach_pruned_state(a):
-    return (f"(implies(cls({SL_}[{a}]) == 1, eqlist({SL_}[{a}].next_states, FilterLab({OLDNSOF(a)}, some({RS_}[{a}]), len({OLDNSOF(a)}))))"
+    return (f"(implies(cls({SL_}[{a}]) == 1, lcontent({SL_}[{a}].next_states) == FilterLab({OLDNSOF(a)}, some({RS_}[{a}]), len({OLDNSOF(a)})))"
             f" and implies(cls({SL_}[{a}]) != 1, {SL_}[{a}].next_states == old({SL_}[{a}].next_states)))")
 
 
@@ -351,14 +360,14 @@ AB = ARR(INT, BOOL)
 F0_INV = (f"forall(a, 0, len({SL_}), implies(F0[a], a == 0 or exists(p, 0, len({SL_}), F0[p] and exists(k, 0, len({SL_}[p].next_states), {SL_}[p].next_states[k][1] == a))))")
 PS_I1 = (f"forall(a, 0, len({SL_}), {SL_}[a].next_states == old({SL_}[a].next_states)"
          f" or (cls({SL_}[a]) != 1 and len({SL_}[a].next_states) == 0 and not F0[a]))")
-PS_COMMON = [PS_I1, OLD_LISTS_SAME, "alloc_l() >= old(alloc_l())", OTHER_OBJS_SAME] + VALID(SL_) + HEAPWF(SL_)
+PS_COMMON = [PS_I1, OLD_LISTS_SAME, "alloc_l() >= old(alloc_l())", OTHER_OBJS_SAME] + VALID(SL_) + HEAPWF(SL_) + [PROBS_POS_S, SUM1_S]
 IN_REACH = lambda x: f"exists(m, 0, len(reachable_states), reachable_states[m] == {x})"
 contract('Solver.prune_states', heap=SOLVER_HEAP,
          params={'self': REF('Solver'), 'F0': AB}, ghost_params={'F0': 'F0'},
          locals={'finished': BOOL, 'not_reachable_states': LIST(INT), 'reachable_states': LIST(INT), 'not_reachable_states_new': LIST(INT),
                  'state': NODE, 'idx': INT, 'next_state': TRANS},
-         requires=VALID(SL_) + HEAPWF(SL_) + [F0_INV, f"len({SL_}) >= 1"],
-         ensures=[PS_I1] + VALID(SL_) + HEAPWF(SL_),
+         requires=VALID(SL_) + HEAPWF(SL_) + [F0_INV, f"len({SL_}) >= 1", PROBS_POS_S, SUM1_S],
+         ensures=[PS_I1] + VALID(SL_) + HEAPWF(SL_) + [PROBS_POS_S, SUM1_S],
          modifies={'next_states': [f"exists(p, 0, len({SL_}), {SL_}[p] == _o)"], '__lists__': []}, allocates=True,
          loops={0: dict(inv=PS_COMMON),
                 1: dict(inv=["len(reachable_states) >= 1", "reachable_states[0] == 0",
@@ -640,7 +649,7 @@ contract('Solver.solve_reachability', heap=SOLVER_HEAP, opaque=('BR', 'MaxS', 'M
          requires=SR_REQ,
          ensures=SR_POST + [f"len(result[0]) == len({SL_})", f"forall(a, 0, len({SL_}), {reach_clause('result[0]', 'a')})", f"not (prune_states and RP[{SL_}[0]] == 0)"],
          raises=dict(exc=['ValueError'], when=[], ensures=SR_POST + ["prune_states", f"RP[{SL_}[0]] == 0"]),
-         modifies={'reach_probability': [f"exists(p, 0, len({SL_}), {SL_}[p] == _o)"], 'expected_reach_min_rewards': 'all'},
+         modifies={'reach_probability': [f"exists(p, 0, len({SL_}), {SL_}[p] == _o)"], 'expected_reach_min_rewards': [f"exists(p, 0, len({SL_}), {SL_}[p] == _o)"]},
          after_call={
              'reverse_dfs': dict(
                  hints=[f"forall(t, 0, len({SL_}), forall(k, 0, len({SL_}[t].next_states), implies({IN_S(f'{SL_}[t].next_states[k][1]')} or {isfinal(f'{SL_}[t].next_states[k][1]')}, {IN_S('t')} or {isfinal('t')})))",
@@ -656,3 +665,132 @@ contract('Solver.solve_reachability', heap=SOLVER_HEAP, opaque=('BR', 'MaxS', 'M
                  also_on_raise=True,
                  use={2: [f"forall(t, 0, len({SL_}), L_BR_zero(cls({SL_}[t]), lcontent({SL_}[t].next_states), {SL_}, RP))"]})},
          props=['C01', 'C04', 'C06', 'C13'])
+
+# ------------------------------------------------------------------ the phases composed: Solver.__init__, prune_stochastich_game, solve_total_rewards, solve (typed suffix)
+contract('Solver.__init__', constructor=True, external=True, heap=SOLVER_HEAP,
+         params={'self': REF('Solver'), 'state_list': SLT, 'threshold': REAL}, defaults={'threshold': '10**(-6)'},
+         requires=["threshold == 10**(-6)"], modifies={'state_list': ['self'], 'threshold': ['self'], 'floor': ['self']},
+         # assumed (math.log / math.floor are outside the solver theories); the floor value is re-computed from the real source by the
+         # static obligation solver-constants on every run
+         ensures=["self.state_list == state_list", "self.threshold == threshold", "self.floor == 6"], list_eq_structural=True, props=[])
+
+
+def alive_edge(p, a):
+    return (f"exists(k, 0, len({SL_}[{p}].next_states), {SL_}[{p}].next_states[k][1] == {a}"
+            f" and (cls({SL_}[{p}]) == 2 or RP[{SL_}[{SL_}[{p}].next_states[k][1]]] != 0))")
+
+
+# F0: any predicate satisfying the inversion rule of "reachable from state 0" in the graph that prune_paths leaves (edges of
+# Player 1 / probabilistic states only to successors with non-zero reachability)
+F0_INV_PRUNED = f"forall(a, 0, len({SL_}), implies(F0[a], a == 0 or exists(p, 0, len({SL_}), F0[p] and {alive_edge('p', 'a')})))"
+
+
+def pruned_or_cleared(a):
+    return f"({pruned_state(a)} or (cls({SL_}[{a}]) != 1 and len({SL_}[{a}].next_states) == 0 and not F0[{a}]))"
+
+
+contract('Solver.prune_stochastich_game', heap=SOLVER_HEAP,
+         params={'self': REF('Solver'), 'F0': AB}, ghost_params={'F0': 'F0'},
+         requires=VALID(SL_) + HEAPWF(SL_) + [PROBS_POS_S, SUM1_S, F0_INV_PRUNED, f"len({SL_}) >= 1"],
+         ensures=[f"forall(a, 0, len({SL_}), {pruned_or_cleared('a')})"] + VALID(SL_) + HEAPWF(SL_) + [PROBS_POS_S, SUM1_S],
+         modifies={'next_states': [f"exists(p, 0, len({SL_}), {SL_}[p] == _o)"], '__lists__': []}, allocates=True,
+         after_call={'Solver.prune_paths': dict(
+             hints=[f"forall(a, 0, len({SL_}), implies(F0[a], a == 0 or exists(p, 0, len({SL_}), F0[p] and exists(k, 0, len({SL_}[p].next_states), {SL_}[p].next_states[k][1] == a))))"],
+             use={0: [f"forall(p, 0, len({SL_}), L_FA_keeps({OLDNSOF('p')}, {SL_}, RP, len({OLDNSOF('p')})))",
+                      f"forall(p, 0, len({SL_}), L_Renorm_at(FilterAlive({OLDNSOF('p')}, {SL_}, RP, len({OLDNSOF('p')})), AliveMass({OLDNSOF('p')}, {SL_}, RP, len({OLDNSOF('p')})), len(FilterAlive({OLDNSOF('p')}, {SL_}, RP, len({OLDNSOF('p')})))))",
+                      f"forall(p, 0, len({SL_}), L_Renorm_len(FilterAlive({OLDNSOF('p')}, {SL_}, RP, len({OLDNSOF('p')})), AliveMass({OLDNSOF('p')}, {SL_}, RP, len({OLDNSOF('p')})), len(FilterAlive({OLDNSOF('p')}, {SL_}, RP, len({OLDNSOF('p')})))))",
+                      f"forall(p, 0, len({SL_}), L_FA_len({OLDNSOF('p')}, {SL_}, RP, len({OLDNSOF('p')})))"]})},
+         opaque=('FilterAlive', 'AliveMass', 'Renorm', 'SumP'),
+         props=['C03', 'C02', 'C06', 'C10', 'C13', 'C14'])
+contract('Solver.solve_total_rewards', heap=SOLVER_HEAP,
+         params={'self': REF('Solver')}, result=TUP(LIST(OSTR), INT),
+         locals={'n_iterations_rew': INT, 'total_rewards_strategies': LIST(OSTR)},
+         requires=VALID(SL_) + [PROPERW_S, REWNN, RP01_S, ENN, "self.threshold > 0", "self.threshold < 1", "self.floor == 6"],
+         ensures=[residW("self.threshold"), ENN, f"len(result[0]) == len({SL_})", f"forall(a, 0, len({SL_}), {rew_clause('result[0]', 'a')})", "result[1] >= 1"],
+         modifies={f: [f"exists(p, 0, len({SL_}), {SL_}[p] == _o)"] for f in ('expected_rewards', 'expected_rewards_min_reach', 'expected_reach_min_rewards')},
+         opaque=('BW', 'MaxS', 'MinS', 'SumS', 'SumP', 'MinW0', 'MaxR', 'MinR', 'MinR0', 'ArgEqR'),
+         props=['C02', 'C05', 'C06', 'C14', 'C13'])
+
+# ------------------------------------------------------------------ StochasticGame.solve, typed suffix (from the statement after `state_list = self.init_states()`)
+# The validating prefix is the C09 contract of the same function; what it establishes is stated here as the precondition (A-BRIDGE).
+SV = "state_list"
+TYPED_HEAP = sorted(set(SG_HEAP + SOLVER_HEAP))
+
+
+def sv(txt):
+    return txt.replace(SL_, SV)
+
+
+def isfinal_s(t):
+    return f"exists(f, 0, len(self.final_states), self.final_states[f] == {t})"
+
+
+def OLDC(a):
+    return f"old(lcontent({SV}[{a}].next_states))"
+
+
+def cond_state(a, sigma):
+    """the conditioned game at state a (C02/C03, pruning on): Player 1 keeps, in order, the transitions whose label is reachability-optimal
+    and whose target has non-zero probability; a probabilistic state keeps, in order, the transitions into non-zero states, renormalised
+    (untouched if none was dropped); Player 2 keeps everything"""
+    FL = f"FilterLab({OLDC(a)}, some({sigma}[{a}]), len({OLDC(a)}))"
+    FA1 = f"FilterAlive({FL}, {SV}, RP, len({FL}))"
+    FA0 = f"FilterAlive({OLDC(a)}, {SV}, RP, len({OLDC(a)}))"
+    AM0 = f"AliveMass({OLDC(a)}, {SV}, RP, len({OLDC(a)}))"
+    return (f"(implies(cls({SV}[{a}]) == 1, lcontent({SV}[{a}].next_states) == {FA1})"
+            f" and implies(cls({SV}[{a}]) == 0, implies(len({FA0}) == len({OLDC(a)}), {SV}[{a}].next_states == old({SV}[{a}].next_states))"
+            f"     and implies(len({FA0}) != len({OLDC(a)}), lcontent({SV}[{a}].next_states) == Renorm({FA0}, {AM0}, len({FA0}))))"
+            f" and implies(cls({SV}[{a}]) == 2, {SV}[{a}].next_states == old({SV}[{a}].next_states)))")
+
+
+def restricted_state(a, sigma):
+    """pruning off: only Player 1's transitions are restricted to its reachability strategy"""
+    return (f"(implies(cls({SV}[{a}]) == 1, lcontent({SV}[{a}].next_states) == FilterLab({OLDC(a)}, some({sigma}[{a}]), len({OLDC(a)})))"
+            f" and implies(cls({SV}[{a}]) != 1, {SV}[{a}].next_states == old({SV}[{a}].next_states)))")
+
+
+R8T = TUP(LIST(OSTR), LIST(OSTR), LIST(REAL), LIST(REAL), INT, INT, LIST(REAL), LIST(REAL))
+SOLVE_REQ = (["0 <= self and self < alloc_o()", f"forall(q, 0, len({SV}), 0 <= {SV}[q] and {SV}[q] < alloc_o() and {SV}[q] != self)"]
+             + VALID(SV) + HEAPWF(SV)
+             + [f"len({SV}) >= 1", f"len(self.transition_list) == len({SV})", f"forall(k, 0, len({SV}), self.transition_list[k] == {SV}[k].next_states)",
+                f"len(self.rewards) == len({SV})", f"forall(k, 0, len({SV}), {SV}[k].reward == self.rewards[k] and {SV}[k].reward >= 0)",
+                "len(self.final_states) > 0", f"forall(f, 0, len(self.final_states), 0 <= self.final_states[f] and self.final_states[f] < len({SV}))",
+                f"forall(t, 0, len({SV}), RP[{SV}[t]] == (1 if {isfinal_s('t')} else 0))",
+                f"forall(t, 0, len({SV}), ER[{SV}[t]] == {SV}[t].reward)",
+                f"forall(t, 0, len({SV}), len({SV}[t].next_states) >= 1)",
+                sv(PROBS_POS_S), sv(SUM1_S),
+                f"forall(f, 0, len(self.final_states), CR[self.final_states[f]])",
+                f"forall(u, 0, len({SV}), forall(j, 0, len({SV}[u].next_states), implies(CR[{SV}[u].next_states[j][1]], CR[u])))",
+                f"forall(t, 0, len({SV}), 0 <= VR[{SV}[t]] and VR[{SV}[t]] <= 1)",
+                f"forall(f, 0, len(self.final_states), VR[{SV}[self.final_states[f]]] == 1)",
+                f"forall(t, 0, len({SV}), implies(not {isfinal_s('t')} and CR[t], VR[{SV}[t]] == BR(cls({SV}[t]), lcontent({SV}[t].next_states), {SV}, VR)))"])
+SOLVE_REACH_POST = [f"forall(t, 0, len({SV}), implies({isfinal_s('t')}, RP[{SV}[t]] == 1))",
+                    f"forall(t, 0, len({SV}), implies(not {isfinal_s('t')} and not CR[t], RP[{SV}[t]] == 0))",
+                    f"forall(t, 0, len({SV}), 0 <= RP[{SV}[t]] and RP[{SV}[t]] <= VR[{SV}[t]])",
+                    f"forall(t, 0, len({SV}), implies(not {isfinal_s('t')}, abs(RP[{SV}[t]] - BR(cls({SV}[t]), old(lcontent({SV}[t].next_states)), {SV}, RP)) <= 10**(-6)))"]
+# F0: any predicate satisfying the inversion rule of "reachable from the initial state in the conditioned game" (the node lists after
+# prune_reachability, with Player 1 / probabilistic edges only into states of non-zero probability): introduced as a hypothesis on the
+# ghost where prune_stochastich_game is called
+F0_AT_PRUNE = sv(F0_INV_PRUNED)
+contract('StochasticGame.solve@typed', function='StochasticGame.solve', start_after_assign='state_list', suffix_locals={'state_list': SLT},
+         heap=TYPED_HEAP, constructors={'Solver': 'tad.Solver.__init__'},
+         params={'self': SG, 'VR': AR, 'CR': AB, 'F0': AB}, ghost_params={'VR': 'VR', 'CR': 'CR', 'F0': 'F0'}, result=R8T,
+         locals={'solver': REF('Solver'), 'reachability_strategies': LIST(OSTR), 'n_iterations_reach': INT, 'probabilities': LIST(REAL), 'final_strategies': LIST(OSTR),
+                 'n_iterations_rew': INT, 'rewards': LIST(REAL), 'expected_reach_min_rewards': LIST(REAL), 'expected_rewards_min_reach': LIST(REAL), 'state': NODE},
+         requires=SOLVE_REQ,
+         assume_at_call={'Solver.prune_stochastich_game': [F0_AT_PRUNE]},
+         ensures=[f"len(result[0]) == len({SV}) and len(result[1]) == len({SV}) and len(result[2]) == len({SV}) and len(result[3]) == len({SV}) and len(result[6]) == len({SV}) and len(result[7]) == len({SV})",
+                  f"forall(t, 0, len({SV}), result[3][t] == RP[{SV}[t]])"] + SOLVE_REACH_POST + [
+                  f"forall(a, 0, len({SV}), {sv(reach_clause('result[1]', 'a')).replace('lcontent(' + SV + '[a].next_states)', OLDC('a')).replace('len(' + SV + '[a].next_states)', 'len(' + OLDC('a') + ')')})",
+                  f"implies(self.prune_states, forall(a, 0, len({SV}), {cond_state('a', 'result[1]')} or (cls({SV}[a]) != 1 and len({SV}[a].next_states) == 0 and not F0[a])))",
+                  f"implies(not self.prune_states, forall(a, 0, len({SV}), {restricted_state('a', 'result[1]')}))",
+                  f"forall(t, 0, len({SV}), result[2][t] == ER[{SV}[t]] and ER[{SV}[t]] >= 0)",
+                  sv(residW("10**(-6)")),
+                  f"forall(a, 0, len({SV}), {sv(rew_clause('result[0]', 'a'))})",
+                  "not (self.prune_states and RP[state_list[0]] == 0)"],
+         raises=dict(exc=['ValueError'], when=[], ensures=SOLVE_REACH_POST + ["self.prune_states", f"RP[{SV}[0]] == 0"]),
+         modifies=dict([(f, [f"exists(p, 0, len({SV}), {SV}[p] == _o)"]) for f in ('next_states', 'reach_probability', 'expected_rewards', 'expected_rewards_min_reach', 'expected_reach_min_rewards')]
+                       + [(f, ["_o >= alloc_o()"]) for f in ('state_list', 'threshold', 'floor')] + [('__lists__', [])]),
+         allocates=True, list_eq_structural=True,
+         opaque=('BR', 'BW', 'MaxS', 'MinS', 'SumS', 'SumP', 'MinW0', 'MaxR', 'MinR', 'MinR0', 'ArgEqR', 'FilterAlive', 'AliveMass', 'Renorm', 'FilterLab'),
+         props=['C01', 'C02', 'C03', 'C04', 'C05', 'C06', 'C10', 'C13', 'C14'])
